@@ -57,7 +57,7 @@ pub fn byte_step_label() {
 #[cfg(not(feature = "deep"))]
 pub const NP12: usize = 8;
 #[cfg(feature = "deep")]
-pub const NP12: usize = 16;
+pub const NP12: usize = 24;
 
 pub fn ref_full(tl: u16, pt: u16, label: &[u8], lab_len: usize, pdu: &[u8], pdu_len: usize) -> u32 {
     let mut r = ref_header(tl, pt);
@@ -77,7 +77,7 @@ pub fn ref_full(tl: u16, pt: u16, label: &[u8], lab_len: usize, pdu: &[u8], pdu_
 /// (c) differential against the bitwise reference: label length 0 / 3 / 6, PDU length
 /// 0..=NP12, every byte symbolic: label before PDU, no reflection, no final xor.
 #[kani::proof]
-#[kani::unwind(18)]
+#[kani::unwind(26)]
 pub fn differential() {
     let tl: u16 = kani::any();
     let pt: u16 = kani::any();
